@@ -243,3 +243,35 @@ def decodePackets (data : Bytes) : Except PErr (List Packet) :=
     | .ok (s, t) => decLoop s t (data.drop 4)
 
 end Cell2v.Codec
+
+namespace Cell2v.Codec
+
+/-! ## route dictionary (`message.SetDictionary`) -/
+
+/-- the two Go maps `routes` / `codes`, kept as one list of (route, code) pairs -/
+abbrev Dict := List (Bytes × Nat)
+
+def Dict.routes (d : Dict) (r : Bytes) : Option Nat := (d.find? (fun e => e.1 == r)).map (·.2)
+def Dict.codes (d : Dict) (c : Nat) : Option Bytes := (d.find? (fun e => e.2 == c)).map (·.1)
+
+/-- one iteration of the `for route, code := range dict` loop: duplicate route or
+duplicate code ⇒ error (the call returns, entries added so far stay) -/
+def Dict.add1 (d : Dict) (r : Bytes) (c : Nat) : Option Dict :=
+  if d.any (fun e => e.1 == r) then none
+  else if d.any (fun e => e.2 == c) then none
+  else some (d ++ [(r, c)])
+
+/-- `SetDictionary` over the entries in the order Go's map iteration yields them;
+`trim` is `strings.TrimSpace`.  Returns the new dictionary and whether the call succeeded. -/
+def setDictionary (trim : Bytes → Bytes) (d : Dict) : List (Bytes × Nat) → Dict × Bool
+  | [] => (d, true)
+  | (r, c) :: rest =>
+    match d.add1 (trim r) c with
+    | none => (d, false)
+    | some d' => setDictionary trim d' rest
+
+/-- codec environment over a dictionary -/
+def Dict.env (d : Dict) (deflate : Bytes → Bytes) (inflate : Bytes → Option Bytes) (compress : Bool) : Env :=
+  { routes := d.routes, codes := d.codes, deflate := deflate, inflate := inflate, compress := compress }
+
+end Cell2v.Codec
